@@ -56,9 +56,6 @@ theorem open_wind_insert (fr : FillRule) (left : List Edge) (e : Edge)
 
 /-! ## closed edges are unaffected -/
 
-/-- the closed edges of an AEL, in order -/
-def closedPart (l : Ael) : Ael := l.filter (fun e => !e.isOpen)
-
 /-- **closed_unaffected (pair).** When one of the two edges is open, `IntersectEdges` returns the other one unchanged
 (all fields: `wc`, `wc2`, `hot`, …), and the open one stays open. -/
 theorem closed_unaffected_pair (cfg : Cfg) (e1 e2 : Edge) (h : e1.isOpen = true ∨ e2.isOpen = true) :
@@ -80,6 +77,23 @@ theorem closed_unaffected (cfg : Cfg) (i : Nat) (l l' : Ael) (e1 e2 : Edge) (res
   · simp [intersectPair, ho1, ho2, intersectOpen_isOpen]
   · simp [intersectPair, ho1, ho2, intersectOpen_isOpen]
   · simp [intersectPair, ho1, ho2]
+
+/-- **closed_unaffected (one step).** Erase the open edges from the AEL (`closedPart`).  Every operation of a sweep
+with open paths either leaves the erased AEL untouched (`projOp = none`: it only concerned open edges) or is, on the
+erased AEL, the corresponding operation of the sweep without open paths (`projOp = some op'`, positions counted among
+closed edges) with exactly the same resulting counts and hot flags. -/
+theorem closed_unaffected_step (cfg : Cfg) (l l' : Ael) (op : Op) (hs : step cfg l op = some l') :
+    match projOp l op with
+    | none => closedPart l' = closedPart l
+    | some op' => step cfg (closedPart l) op' = some (closedPart l') :=
+  step_closedPart cfg l l' op hs
+
+/-- **closed_unaffected (whole runs)** — the model half of "adding open subjects does not change the closed solution":
+the closed edges of the final AEL of any run are the final AEL of the run obtained by deleting everything that concerns
+open edges (`projOps`), so `wc`, `wc2` and `hot` of every closed edge are what they would be without open paths. -/
+theorem closed_unaffected_run (cfg : Cfg) (ops : List Op) (l : Ael) (hr : run cfg [] ops = some l) :
+    run cfg [] (projOps cfg [] ops) = some (closedPart l) :=
+  run_closedPart cfg ops [] l hr
 
 /-! ## hot ⇔ keep, along every run -/
 
@@ -273,6 +287,8 @@ example : (run ⟨.difference, .nonZero⟩ [] (openOps.take 3)).map (fun l => l.
     some [false, false, false] := by decide
 example : (run ⟨.intersection, .evenOdd⟩ [] openOps).map (checkOpenInv ⟨.intersection, .evenOdd⟩) = some true := by
   decide
+/-- erasing the open edge from `openOps` leaves the insertion of the clip square -/
+example : projOps ⟨.intersection, .nonZero⟩ [] openOps = [.insertPair 0 .clip false (-1)] := by decide
 /-- the checker is not vacuous -/
 example : checkOpenInv ⟨.intersection, .nonZero⟩ [⟨.subject, true, 1, 0, 0, true⟩] = false := by decide
 
